@@ -648,6 +648,68 @@ func ruleKeyFrame(p *Prog, r *Result) {
 				}
 			}
 		})
+		// ... and equal numbers have one rendering: the two zeros are equal but print as "0" and "-0", so the float
+		// that is rendered is a merge of the value with the constant zero (chosen under a comparison with zero)
+		signed := ""
+		nFloat := 0
+		allInstrs(conv, func(in ssa.Instruction) {
+			c, ok := in.(*ssa.Call)
+			if !ok {
+				return
+			}
+			nm := p.calleeName(&c.Call)
+			if nm != "strconv.FormatFloat" && nm != "strconv.AppendFloat" {
+				return
+			}
+			nFloat++
+			x := c.Call.Args[len(c.Call.Args)-4]
+			zeroEdge := false
+			seen := map[ssa.Value]bool{}
+			var walk func(v ssa.Value)
+			walk = func(v ssa.Value) {
+				if seen[v] {
+					return
+				}
+				seen[v] = true
+				switch y := v.(type) {
+				case *ssa.Convert:
+					walk(y.X)
+				case *ssa.Phi:
+					for _, e := range y.Edges {
+						walk(e)
+					}
+				case *ssa.Const:
+					if k, ok := constIntOrFloatZero(y); ok && k == 0 {
+						zeroEdge = true
+					}
+				case *ssa.BinOp:
+					// v + 0: IEEE addition turns -0 into +0 and leaves every other value alone
+					if y.Op == token.ADD {
+						for _, o := range []ssa.Value{y.X, y.Y} {
+							if k, ok := constIntOrFloatZero(o); ok && k == 0 {
+								zeroEdge = true
+							}
+						}
+					}
+				case *ssa.Call:
+					// a package helper returning the merge
+					if g := y.Call.StaticCallee(); g != nil && p.InPkg(g) {
+						for _, b := range g.Blocks {
+							if ret := retOf(b); ret != nil && len(ret.Results) == 1 {
+								walk(ret.Results[0])
+							}
+						}
+					}
+				}
+			}
+			walk(x)
+			if !zeroEdge {
+				signed = p.InstrPos(c)
+			}
+		})
+		if nFloat > 0 {
+			r.add(signed == "", p.FName(conv)+"|float-zero", p.Pos(conv.Pos()), firstNonEmpty(map[bool]string{true: "the float rendered at " + signed + " keeps the sign of a negative zero: 0.0 and -0.0, which are equal, land in two groups"}[signed != ""], "a zero is rendered as the constant zero whatever its sign"))
+		}
 		r.add(lossy == "", p.FName(conv)+"|float-exact", p.Pos(conv.Pos()), firstNonEmpty(map[bool]string{true: "floats are rendered with a fixed number of digits: " + lossy}[lossy != ""], "group values are rendered with all their digits (distinct floats give distinct key components)"))
 	}
 	// the same for keys written into a strings.Builder / bytes.Buffer inside a loop
